@@ -26,13 +26,14 @@ RULE = ("three monitors over the REAL generated functions (collected through the
         "monitor) pairs plus distinct generated functions walked.")
 ASSUMPTIONS = ["the closure walk checks name resolution of unexecuted paths, not their semantics",
                "generated functions are those exec'ed from frames inside the mashumaro package"]
-BUDGET_S = {"quick": 150, "thorough": 1200}
+BUDGET_S = {"quick": 150, "thorough": 1500}
+CASES_PER_PROCESS = {"quick": 500, "thorough": 1200}
 MIN_EVENTS = {"quick": {"evaluations": 4000, "functions_walked": 5000, "error_paths_provoked": 20000, "identity_checks": 1500},
-              "thorough": {"evaluations": 100000, "functions_walked": 120000, "error_paths_provoked": 600000, "identity_checks": 40000}}
+              "thorough": {"evaluations": 50000, "functions_walked": 60000, "error_paths_provoked": 300000, "identity_checks": 20000}}
 
 
 def n_cases(tier):
-    return 5000 if tier == "quick" else 100000
+    return 5000 if tier == "quick" else 60000
 
 
 def worker_setup(tier, rec):
